@@ -29,7 +29,8 @@ type c16case struct {
 
 // reference table flag-combination -> layout, written from the documented
 // meaning of the flags (date part / time part / microseconds); nil = the
-// combination is not given a meaning by the statement, any layout of the family is accepted.
+// combination is not given a meaning by the flags' documentation ('do print date part / time part /
+// microseconds part'), any layout of the family is accepted.
 var c16flagLayouts = map[int][]string{
 	1:         {"2006-01-02"},
 	2:         {"15:04:05Z07:00"},
@@ -37,8 +38,10 @@ var c16flagLayouts = map[int][]string{
 	1 | 2:     {"2006-01-0215:04:05Z07:00", "2006-01-02T15:04:05Z07:00", "2006-01-02 15:04:05Z07:00"},
 	1 | 2 | 4: {"2006-01-02T15:04:05.000000Z07:00"},
 	0:         nil,
-	4:         nil,
-	1 | 4:     nil,
+	// microseconds asked for without a time part: the layout must at least carry the microseconds
+	4: {"15:04:05.000000Z07:00", "2006-01-02T15:04:05.000000Z07:00"},
+	// date part and microseconds: the only layout of the family that prints both
+	1 | 4: {"2006-01-02T15:04:05.000000Z07:00"},
 }
 
 var c16family = []string{"2006-01-02", "15:04:05Z07:00", "15:04:05.000000Z07:00", "2006-01-0215:04:05Z07:00", "2006-01-02T15:04:05.000000Z07:00"}
